@@ -199,13 +199,39 @@ def run(chk, tier):
         elif b == "Map" and a == "String" and "a" not in r["not"]:
             got.add(("map", ret))
         elif b == "List":
-            got.add(("list", re.sub(r"\b[01]\b", "_", ret), tuple(k for k, v in r["eq"] if "PartialEq" in k)))
+            continue          # decided below on a concrete two-element list (the same table whether written as a loop or as iter().any())
         elif ret.startswith("CelValue::from_err("):
             got.add(("error",))
         else:
             got.add(("?", ret[:80]))
     want = {("string", "CelValue::from_bool(str::contains(b.String.0, a.String.0))"), ("map", "CelValue::from_bool(HashMap::contains_key(b.Map.0, a.String.0))"),
-            ("list", "Into::into<T><-U(_)", ("PartialEq::eq(a, *b.List.0)",)), ("error",)}
+            ("error",)}
+    # list membership on [e0, e1]: e0 is compared first, a hit answers true at once, no hit answers false; the comparison is == of needle and element
+    class _InPolicy(semtables.LogicPolicy):
+        def limit_for(self, body, blk):
+            return 6
+    itl = symex.Interp(F, _InPolicy())
+    lst2 = symex.adt(CV, "List", (("seq", (symex.U("e0", CV), symex.U("e1", CV))),))
+    lrows = set()
+    for st_, r_ in itl.run(F.body(CV + "::in_"), [symex.U("a", CV), lst2]):
+        rr_ = symex.render(r_)
+        if rr_ in ("a",) or rr_.startswith("CelValue::List("):
+            continue          # a failed operand is passed on
+        preds_ = []
+        for c in st_.cond:
+            if c[0] in ("eq", "ne") and re.search(r"PartialEq(?: for \w+)?::eq\(", str(c[1])):
+                m_ = re.match(r"^PartialEq(?: for \w+)?::eq\(\*?(\w+), \*?(\w+)\)$", str(c[1]))
+                pair_ = tuple(sorted(m_.groups())) if m_ else (str(c[1]),)
+                preds_.append((pair_, "T" if c[0] == "ne" else "F"))
+        m_ = re.match(r"^(?:Into::into<T><-U|CelValue::from_bool|From::from<CelValue><-bool)\((0|1)\)$", rr_)
+        val_ = int(m_.group(1)) if m_ else ("true" if rr_ == "CelValue::true_()" else "false" if rr_ == "CelValue::false_()" else rr_[:60])
+        val_ = 1 if val_ == "true" else 0 if val_ == "false" else val_
+        lrows.add((tuple(preds_), val_))
+    want_l = {(((("a", "e0"), "T"),), 1), (((("a", "e0"), "F"), (("a", "e1"), "T")), 1), (((("a", "e0"), "F"), (("a", "e1"), "F")), 0)}
+    if lrows == want_l:
+        chk.ok("R06.4", "in|list membership on two elements", sorted(map(str, lrows)))
+    else:
+        chk.bad("R06.4", "in|list membership on two elements", "`x in [e0, e1]` must compare x with e0, then with e1, answer true at the first hit and false without one; found %s" % sorted(map(str, lrows)), "rscel/src/types/cel_value.rs")
     if got == want:
         chk.ok("R06.4", "in|table", sorted(map(str, got)))
     else:
